@@ -193,9 +193,13 @@ func (x *Exec) builtin(fr *frame, b *ssa.Builtin, args []Value, cc *ssa.CallComm
 			return c64(uint64(u.Elem().Underlying().(*types.Array).Len()))
 		case *types.Map:
 			return x.mapLen(args[0])
+		case *types.Chan:
+			return x.chanLen(args[0])
 		}
 	case "cap":
 		switch u := argT(0).Underlying().(type) {
+		case *types.Chan:
+			return x.chanCap(args[0])
 		case *types.Slice:
 			return args[0].(Agg)[2]
 		case *types.Array:
@@ -217,6 +221,9 @@ func (x *Exec) builtin(fr *frame, b *ssa.Builtin, args []Value, cc *ssa.CallComm
 		}
 		x.copyBytes(dst[0].(*smt.Term), src[0].(*smt.Term), smt.Mul(n, c64(uint64(es))), nb*es, "copy")
 		return n
+	case "close":
+		x.chanClose(args[0])
+		return nil
 	case "panic":
 		panic(&goPanic{val: args[0]})
 	case "recover":
